@@ -8,7 +8,7 @@ package control
 //
 // Ops (same driver as the outbound harness): world / group / sample / told / pen / policy, and
 //   choose <t|u> <4|6> 0 2 <strict> <excl|->     the selection network type chooseProxyDialer derives
-// answered with `ok d:sel` (node, admitting domain) for every admissible answer.
+// answered with `ok d:sel:fam` (node, admitting domain, family handed to the dial) for every admissible answer.
 
 import (
 	"context"
@@ -149,6 +149,7 @@ func (w *c15cWorld) sample(t, d int, lat int64) {
 		return w.takeCbs() + " " + w.setDump(t)
 	})
 	w.st.Emit(fmt.Sprintf("sample %d %d %d", t, d, lat), out)
+	w.syncPens(d)
 }
 
 func (w *c15cWorld) kill(t, d int, force bool) {
@@ -227,12 +228,8 @@ func (w *c15cWorld) choose(udp, src6, dst6, withDomain bool, excl int) {
 				case errors.Is(err, ob.ErrNoAliveDialer):
 					seen["err=noalive"] = true
 					w.stats.Inc("choose.noalive")
-				case strings.Contains(err.Error(), "no dialer in this group"):
-					seen["err=nodialers"] = true
-				case strings.Contains(err.Error(), "out of range"):
-					seen["err=range"] = true
 				default:
-					seen["err=other:"+err.Error()] = true
+					seen["err=other"] = true
 				}
 				continue
 			}
@@ -250,7 +247,18 @@ func (w *c15cWorld) choose(udp, src6, dst6, withDomain bool, excl int) {
 				}
 			}
 			w.lastSel = di
-			seen[fmt.Sprintf("%d:%d", di, res.AdmissionNetworkTypeObj.Index()-2)] = true
+			// node, admitting domain, family handed to the dial (SelectionNetworkTypeObj and, for UDP, the
+			// magic network string must agree)
+			fam := "?"
+			if res.SelectionNetworkTypeObj != nil {
+				fam = string(res.SelectionNetworkTypeObj.IpVersion)
+				if udp {
+					if mn, err := netproxy.ParseMagicNetwork(res.Network); err != nil || mn.IPVersion != fam {
+						fam = "network-string-disagrees"
+					}
+				}
+			}
+			seen[fmt.Sprintf("%d:%d:%s", di, res.AdmissionNetworkTypeObj.Index()-2, fam)] = true
 			if i == 0 {
 				w.stats.Inc("choose.ok")
 				if res.SelectionNetworkTypeObj != nil && (res.SelectionNetworkTypeObj.IpVersion == consts.IpVersionStr_6) != sel6 {
